@@ -20,13 +20,14 @@ MCSplits == (SUBSET (1..MCNCh)) \ {{}, 1..MCNCh}      \* every selection: lower 
 \* at most MaxDepth operations.  The bound is an explicit counter: TLCGet("level") is not a function of the state
 \* when several workers explore in parallel (measured here: 3 % of the states were missed), a counter is exact.
 VARIABLE depth
-mcvars == <<parts, src, last, depth>>
+mcvars == <<parts, src, last, twin, depth>>
 MCInit == Init /\ depth = 0
 MCNext == depth < MaxDepth /\ Next /\ depth' = depth + 1
 
 \* the action properties of PowerLedger over the variables of this module
 MCDemuxMuxKeepLedger == [][DemuxMuxKeepLedgerStep]_mcvars
 MCSourceUntouched    == [][SourceUntouchedStep]_mcvars
+MCTwinUntouched      == [][TwinUntouchedStep]_mcvars
 MCKeepsOsnr          == [][KeepsOsnrStep]_mcvars
 MCKeepsNli           == [][KeepsNliStep]_mcvars
 MCLowersOsnr         == [][LowersOsnrStep]_mcvars
